@@ -19,6 +19,22 @@ def leaves(l, out):
     return out
 
 
+KNOWN_CARRIERS = ("fmt", "fmtarg", "vec", "const", "adt", "index", "field", "mut")
+
+
+def unknown_calls(l, inside=False):
+    """calls (other than join) in a provenance term that have an element v[i] or a vector of them beneath"""
+    out = []
+    if isinstance(l, tuple) and l:
+        if l[0] == "call":
+            has_elem = any(re.match(r"v\[\d+\]$", x) for x in leaves(l, []))
+            if has_elem and not l[1].endswith("::join"):
+                out.append(l[1])
+        for x in l:
+            out += unknown_calls(x)
+    return out
+
+
 def run(ctx, rep):
     facts = ctx.mir
     rep.rule("A13", "slice coverage: for every length n in 0..%d the returned sentence of expected_token_str(v) is built from every element v[0..n) exactly once and from nothing else that is dynamic (provenance of the format arguments, join and index expressions)" % MAXLEN)
@@ -42,7 +58,12 @@ def run(ctx, rep):
         foreign = [x for x in used if x not in want]
         arm = "len=%d" % n if n < 3 else "len>=3"
         miss_sym = ",".join("len-%d" % (n - int(x[2:-1])) for x in missing) if n >= 3 else ",".join(missing)
+        unknown = sorted(set(unknown_calls(lab(p.ret))))
         ok = not missing and not dup and not foreign and not p.effects and used == want
+        for u in unknown:
+            rep.fail("A13", "C20|A13|%s|arm=%s|unknown-carrier|%s" % (ETS, arm, u), cfg.where(fn),
+                     "with %d expected tokens the elements pass through `%s`, which the rule does not know to keep every element (only indexing, range slicing, join and format! are known to): tokens may be dropped on the way "
+                     "(e.g. chunks_exact discards the remainder)" % (n, u), witness={"expected": n, "sentence": fmt_label(lab(p.ret))[:300]})
         key = "C20|A13|%s|arm=%s|missing=%s" % (ETS, arm, miss_sym) if missing else "C20|A13|%s|arm=%s|n=%d" % (ETS, arm, n)
         arms.setdefault(arm, []).append(n)
         rep.check(ok, "A13", key, cfg.where(fn),
